@@ -29,15 +29,16 @@ vars == <<fam, obj, ini, cl, hist, memo, done>>
 Nil == <<"nil", 0>>
 SeqsUpTo(S, n) == UNION {[1..k -> S] : k \in 0..n}
 Thorough == Tier = "thorough"
+Free == Shape = "free"
 
 \* --- "useq" ---------------------------------------------------------------------------------------------------
 ElemS   == {VInt(1), VInt(2), VInt(9)} \cup (IF Thorough THEN {VBool(TRUE)} ELSE {})          \* thorough: 1 == True
-MaxLenS == IF Thorough THEN 3 ELSE 2
+MaxLenS == IF Thorough /\ Free THEN 3 ELSE 2
 Fns     == {"add", "or", "sub", "and"}
-ListsS  == {<<>>, <<VInt(1), VInt(9)>>} \cup (IF Thorough THEN SeqsUpTo(ElemS, 1) \cup {<<VInt(9), VInt(2), VInt(9)>>} ELSE {})
+ListsS  == {<<>>, <<VInt(1), VInt(9)>>} \cup (IF Thorough THEN {<<VBool(TRUE)>>, <<VInt(9), VInt(2), VInt(9)>>} ELSE {})
 RopW    == {<<VInt(1), VInt(9)>>} \cup (IF Thorough THEN {<<VInt(2), VInt(1), VInt(2)>>} ELSE {})
 \* (quick: the elements are interchangeable - every initial u over them is enumerated -, the first call names two of them)
-ElemF   == IF Thorough THEN ElemS ELSE {VInt(1), VInt(9)}
+ElemF   == IF Thorough THEN (IF Free THEN ElemS ELSE {VInt(1), VBool(TRUE)}) ELSE {VInt(1), VInt(9)}
 FirstU  == {<<"op", fn, <<"elem", e>>>> : fn \in (IF Thorough THEN Fns ELSE Fns \ {"or"}), e \in ElemF} \cup {<<"in", e>> : e \in ElemF}
            \cup {<<"rop", "and", w>> : w \in RopW}
 AllU    == {<<"op", fn, <<"elem", e>>>> : fn \in Fns, e \in ElemS} \cup {<<"in", e>> : e \in ElemS}
@@ -60,12 +61,11 @@ AllM == {<<nm, r>> : nm \in {"minus", "and", "select", "multiget", "plus", "or",
         \cup {<<"relabel", r, iv>> : r \in Rcv, iv \in Indiv}
 FirstM == AllM
 InitM == /\ fam = "mses" /\ "mses" \in Fams /\ cl \in Cls0
-         /\ \E d0 \in D0, kom \in KOM0 : (Thorough \/ (Len(d0) = 3 <=> kom.K = <<"a">>)) /\ obj = [d |-> d0, e |-> E0, K |-> kom.K, O |-> kom.O, M |-> kom.M]
+         /\ \E d0 \in D0, kom \in KOM0 : (Free \/ (Len(d0) = 3 <=> kom.K = <<"a">>)) /\ obj = [d |-> d0, e |-> E0, K |-> kom.K, O |-> kom.O, M |-> kom.M]
 
 Init == (InitU \/ InitM) /\ ini = obj /\ hist = <<>> /\ memo = Nil /\ done = FALSE
 
 \* --- steps --------------------------------------------------------------------------------------------------------
-Free == Shape = "free"
 MayCall(first, all, c) == Len(hist) < Depth /\ IF Free THEN c \in all ELSE (Len(hist) = 0 /\ c \in first) \/ (Len(hist) = 2 /\ c \in all)
 MayEdit == Len(hist) < Depth /\ (Free \/ Len(hist) = 1)
 LastCall == hist # <<>> /\ hist[Len(hist)].k = "call"
